@@ -10,7 +10,7 @@ func Percentage(total, current, width uint) float64 {
 	if current >= total {
 		return float64(width)
 	}
-	return float64(width*current) / float64(total)
+	return float64(width) * float64(current) / float64(total)
 }
 
 // PercentageRound same as Percentage but with math.Round.
